@@ -4,8 +4,13 @@ import json, os, re, subprocess, sys
 root = os.path.dirname(os.path.dirname(os.path.abspath(__file__)))
 cat = json.load(open(os.path.join(root, "tools", "mutants.json")))
 only = set(sys.argv[1:])
-out = []
+af = os.path.join(root, "seeded", "mutant_audit.json")
+out = json.load(open(af)) if os.path.exists(af) else []
+done = {r["name"] for r in out}
 for e in cat:
+    if e["name"] in done and not only:
+        continue
+    out = [r for r in out if r["name"] != e["name"]]
     if only and e["name"] not in only:
         continue
     r = subprocess.run([os.path.join(root, "tools", "mutant.py"), e["name"], e["file"], e["old"], e["new"], ",".join(e["pids"])],
